@@ -621,9 +621,45 @@ func genC05(cfg runCfg, e *emitter, rng *rand.Rand) {
 				rem[i] = rng.Intn(2) == 0
 			}
 			is.applyPartials(e, hh, adds, enc, rem)
+			before := rf.clone()
+			prevRoots, prevN := rf.roots(), rf.n()
 			rf.apply(dels, adds)
 			e.line("BLOCKT %s %s", us(ts), hs(adds))
 			emitRoots(e, is)
+			// "for all reachable states": a third of the histories also reach states through Undo - the
+			// block just applied is undone (with the canonical proof) and the history goes on from there
+			if hI%3 == 2 && rng.Intn(3) == 0 {
+				undoOne := func(label string, p u.Utreexo) {
+					if is.dead[label] {
+						return
+					}
+					guarded(e, "Undo."+label, func() {
+						if err := p.Undo(uint64(len(adds)), proof, dels, prevRoots); err != nil {
+							e.hfail("Undo."+label, "%v", err)
+							is.dead[label] = true
+						}
+					})
+				}
+				undoOne("pol", &is.pol)
+				for _, m := range is.maps {
+					undoOne(mapName(m), m)
+				}
+				for _, pi := range is.parts {
+					undoOne(mapName(pi.m), pi.m)
+					for _, a := range adds {
+						delete(pi.R, a)
+					}
+					for _, d := range dels {
+						pi.R[d] = true
+					}
+				}
+				is.stump = u.Stump{Roots: prevRoots, NumLeaves: prevN}
+				rf = before
+				e.line("UNDO")
+				emitRoots(e, is)
+				sig += "U;"
+				e.count("enc_undo")
+			}
 		}
 		e.distinct(sig)
 		if hI < 2 {
